@@ -202,7 +202,8 @@ def gen_c09(r, tier):
                         'path': path, 'frame': r.randrange(nframes),
                         'repair': r.chance(0.5),
                         'type_checking': r.pick([None, 'strict', 'sloppy']),
-                        'epsilon': r.pick([None, 0.01])})
+                        'epsilon': r.pick([None, 0.01]),
+                        'reuse_dict': r.chance(0.5)})
         if r.chance(0.5):
             ops.append({'op': 'noise', 'client': 'A', 'cs': name,
                         'frame': r.randrange(nframes),
@@ -1179,9 +1180,20 @@ def op_verdicts(ctx, op):
     if op.get('epsilon') is not None:
         kw['epsilon'] = op['epsilon']
     results = []
-    srcs = (('dict', lambda: cs_dict(rec)),
-            ('path', lambda: rec['path']),
-            ('reloaded', lambda: rec['loaded'].to_dict()))
+    if op.get('reuse_dict'):
+        # the caller keeps one dictionary object and passes it every time
+        if 'held' not in rec:
+            rec['held'] = cs_dict(rec)
+        held = rec['held']
+        srcs = (('dict', lambda: held),
+                ('path', lambda: rec['path']),
+                ('reloaded', lambda: rec['loaded'].to_dict()),
+                ('dict-again', lambda: held))
+        ctx.stats['probes']['same_dict_object_passed_again'] += 1
+    else:
+        srcs = (('dict', lambda: cs_dict(rec)),
+                ('path', lambda: rec['path']),
+                ('reloaded', lambda: rec['loaded'].to_dict()))
     for name, mk in srcs:
         try:
             v = verify_df(df.copy(deep=True), mk(), **kw)
